@@ -170,6 +170,12 @@ func genMultiset(r *rand.Rand, n int) []vegeta.Result {
 	codes := [][]uint16{{200}, {200, 404, 500}, {0, 100, 199, 200, 204, 302, 399, 400, 404, 599},
 		{25, 39, 200, 2000, 3999, 20000, 39999, 65535, 7, 99, 1000}}[r.Intn(4)]
 	errs := []string{"", "", "", "e1", "e2", "connection refused", "Get \"http://x\": EOF", "500 Internal Server Error"}
+	if r.Intn(4) == 0 { // many distinct status codes
+		codes = nil
+		for k, nd := 0, 20+r.Intn(60); k < nd; k++ {
+			codes = append(codes, uint16(100+r.Intn(500)))
+		}
+	}
 	if r.Intn(3) == 0 { // many distinct error texts (a different port, address or byte count in each), each recurring
 		errs = []string{"", "e1"}
 		for k, nd := 0, 10+r.Intn(50); k < nd; k++ {
